@@ -18,7 +18,8 @@ REGISTRY = {
                      (A + "ConstraintsSrcThm", "Api.numErrors_matches_source"), (A + "ConstraintsSrcThm", "Api.mergeSrc_spec"), (A + "ConstraintsSrcThm", "Api.merge_bounds_match_source"), (A + "ConstraintsSrcThm", "Api.constraints_pinned"),
                      (A + "GenericsThm", "Api.Generics.resolve_closed"), (A + "GenericsThm", "Api.Generics.resolve_spec_fields"), (A + "GenericsThm", "Api.Generics.resolve_names"),
                      (A + "GenericsThm", "Api.Generics.substitutions_use_own_parameters"), (A + "GenericsThm", "Api.Generics.appearance_order_counterexample"),
-                     (A + "GenericsThm", "Api.Generics.old_eq_of_same_order"), (A + "GenericsCompThm", "Api.Generics.resolve_two_step"), (A + "GenericsCompThm", "Api.Generics.subst_comp"),
+                     (A + "GenericsThm", "Api.Generics.old_eq_of_same_order"), (A + "GenericsCompThm", "Api.Generics.resolve_two_step"), (A + "GenericsCompThm", "Api.Generics.subst_comp"), (A + "GenericsHintsThm", "Api.Generics.hints_names_nodup"), (A + "GenericsHintsThm", "Api.Generics.lookup_setHint"),
+                     (A + "GenericsHintsThm", "Api.Generics.hints_walk_source"),
                      (A + "AggregateThm", "Api.Agg.patLoop_first"), (A + "AggregateThm", "Api.Agg.patLoop_cover"), (A + "AggregateThm", "Api.Agg.patLoop_disjoint"),
                      (A + "AggregateThm", "Api.Agg.flatLoop_takes"), (A + "AggregateThm", "Api.Agg.attrib_unexpected"), (A + "AggregateThm", "Api.Agg.attrib_additional"),
                      (A + "AggregateThm", "Api.Agg.agg_steps_pinned"), (A + "TypedDictKeysThm", "Api.typedDict_result_keys_nodup")],
